@@ -20,6 +20,8 @@ from .common import key_of
 from .shared import path_conditions
 from .c08 import may_raise
 
+from . import shared
+
 
 def check(repo: Repo, R) -> None:
     cache_discipline(repo, R)
@@ -59,17 +61,15 @@ def cache_discipline(repo: Repo, R):
     cached_paths = [w for n in bn for w in IN[n.id] if ("cond", "call.gen.enable_cache", True) in w]
     ok_lookup = bool(cached_paths) and all("LOOKED-UP" in w for w in cached_paths)
     R.check(ok_lookup, rule, key_of(fr, "lookup-before-body"), fr.site, f"with caching enabled the body runs only after the cache was consulted: {ok_lookup} ({len(cached_paths)} path state(s))", why="an identical call runs the body again and returns a second Module")
-    hit = any(isinstance(n, ast.If) and ast.unparse(n.test) == "cached_result is not None" and ast.unparse(n.body[-1]) == "return cached_result" for n in au.walk_no_nested(fr.node))
+    hits = [r for r in shared.returns_of(fr.node) if r.value is not None and pat.match("$C.done.get(call)", shared.prov(fr.node, r.value)) is not None]
+    hit = len(hits) == 1 and isinstance(hits[0].value, ast.Name) and shared.cond_match(fr.node, hits[0], f"{hits[0].value.id} is None", False, use_prov=False)
     R.check(hit, rule, key_of(fr, "hit-returns-cached"), fr.site, f"a cache hit returns the cached Module itself: {hit}", why="equal calls return different Modules")
     sn = cfg.nodes_for(stores[0])
     ok_store = bool(sn) and all("BODY-RAN" in w and ("cond", "call.gen.enable_cache", True) in w for n in sn for w in IN[n.id]) and ast.unparse(stores[0].value) == "m"
     R.check(ok_store, rule, key_of(fr, "store-after-body"), fr.site, f"the result is stored under the call after the body ran, only when caching is enabled: {ok_store}", why="the cache maps a call to nothing or to another call's module")
     # parameter instance type check precedes the body
-    tc = None
-    for n in au.walk_no_nested(fr.node):
-        if isinstance(n, ast.If) and ast.unparse(n.test) == "not isinstance(call.params, call.gen.Params)" and au.raises(n.body):
-            tc = n
-    R.check(tc is not None and tc.lineno < body_calls[0].lineno, rule, key_of(fr, "params-type-checked"), fr.site, f"the parameter object is checked to be an instance of the generator's param class before the body runs: {tc is not None}",
+    tc = shared.fails_unless(fr.node, "isinstance(call.params, call.gen.Params)")
+    R.check(tc is not None and shared.cond_match(fr.node, body_calls[0], "isinstance(call.params, call.gen.Params)", True, use_prov=False), rule, key_of(fr, "params-type-checked"), fr.site, f"the parameter object is checked to be an instance of the generator's param class before the body runs: {tc is not None}",
             why="a call with a foreign parameter object is cached under a key that never equals a keyword call")
     # key eq / hash
     ci = repo.cls(F_GENERATOR, "GeneratorCall")
@@ -79,12 +79,15 @@ def cache_discipline(repo: Repo, R):
     R.check(eq_ok and hs_ok, rule, key_of(ci.methods["__eq__"]) if eq else f"{F_GENERATOR}::GeneratorCall", ci.site,
             f"GeneratorCall: equality = generator identity and parameter equality ({eq_ok}); hash = (id(generator), parameters) ({hs_ok})", why="equal calls miss the cache, or calls of different generators with equal parameters share an entry")
     fg = repo.func(F_GENERATOR, "Generator.__call__")
-    ok = bool(pat.find("params = param_call(callee=self, arg=arg, **kwargs)", fg.node)) and bool(pat.find("call = GeneratorCall(gen=self, params=params)", fg.node)) and bool(pat.find("run(call)", fg.node))
+    grets = shared.returns_of(fg.node)
+    ok = len(grets) == 1 and shared.prov_text(fg.node, grets[0].value) == "run(GeneratorCall(gen=self, params=param_call(callee=self, arg=arg, **kwargs)))"
     R.check(ok, rule, key_of(fg), fg.site, f"Generator() builds the parameter object, wraps it in a GeneratorCall of this generator and runs it: {ok}", why="calls bypass the cache")
     fp = repo.func(F_CALL, "param_call")
-    both = any(isinstance(n, ast.If) and ast.unparse(n.test) == "kwargs and arg is not Default" and au.raises(n.body) for n in au.walk_no_nested(fp.node))
-    inst = any(isinstance(n, ast.If) and ast.unparse(n.test) == "arg is not Default" and ast.unparse(n.body[-1]) == "return arg" for n in au.walk_no_nested(fp.node))
-    kw = bool(pat.find("callee.Params(**kwargs)", fp.node))
+    both = shared.raises_under(fp.node, [("kwargs", True), ("arg is Default", False)])
+    insts = [r for r in shared.returns_of(fp.node) if ast.unparse(r.value) == "arg"]
+    inst = len(insts) == 1 and shared.conds_imply(shared.path_conditions(fp.node, insts[0]), [(shared.parse_cond("arg is Default"), False)]) is True
+    kws = [r for r in shared.returns_of(fp.node) if shared.prov_text(fp.node, r.value) == "callee.Params(**kwargs)"]
+    kw = len(kws) == 1 and shared.conds_imply(shared.path_conditions(fp.node, kws[0]), [(shared.parse_cond("arg is Default"), True)]) is True
     R.check(both and inst and kw, rule, key_of(fp), fp.site, f"param_call: instance form returns the instance ({inst}); keyword form constructs callee.Params(**kwargs) ({kw}); giving both fails ({both})", why="keyword and instance calls with equal values produce unequal keys")
 
 
@@ -93,9 +96,12 @@ def readable_names(repo: Repo, R):
     fi = repo.func(F_PARAMS, "_unique_name")
     # accepted scalar types
     scal = None
-    for st in au.stmts(fi.node):
-        if isinstance(st, ast.Assign) and ast.unparse(st.targets[0]) == "scalars" and isinstance(st.value, ast.List):
-            scal = [ast.unparse(e) for e in st.value.elts]
+    for n in ast.walk(fi.node):
+        # by role: the collection the parameters' dtypes are tested against
+        if isinstance(n, ast.Compare) and len(n.ops) == 1 and isinstance(n.ops[0], ast.In) and ast.unparse(n.left).endswith(".dtype"):
+            coll = shared.prov(fi.node, n.comparators[0])
+            if isinstance(coll, (ast.List, ast.Tuple, ast.Set)):
+                scal = [ast.unparse(e) for e in coll.elts]
     if scal is None:
         raise AnalysisError(f"idiom-unknown: `scalars` list in {fi.site}")
     has_str = any("str" in s for s in scal)
@@ -166,12 +172,12 @@ def hashed_names(repo: Repo, R):
                 why="names of generated modules change between processes (hash randomisation / addresses)")
     js = bool(pat.find("json.dumps(params, indent=4, default=hdl21_naming_encoder)", fi.node)) or bool(pat.find("json.dumps(params, *$_)", fi.node))
     md = bool(pat.find("hashlib.new('md5', usedforsecurity=False)", fi.node)) or bool(pat.find("hashlib.md5(*$_)", fi.node)) or bool(pat.find("hashlib.sha256(*$_)", fi.node))
-    last = fi.node.body[-1]
-    whole = isinstance(last, ast.Return) and ast.unparse(last.value) in ("h.hexdigest()",)
+    dig = [r for r in shared.returns_of(fi.node) if pat.match("$H.hexdigest()", r.value) is not None]
+    whole = len(dig) == 1 and len(shared.returns_of(fi.node)) == 2
     R.check(js and md and whole, rule, key_of(fi, "digest"), fi.site, f"non-readable names are a hashlib digest ({md}) of the JSON text of the parameters ({js}), used whole ({whole})", why="hashed names collide (truncated digest) or differ between processes")
-    last = fe.node.body[-1]
-    ok = isinstance(last, ast.Return) and ast.unparse(last.value) == "pydantic_json_encoder(obj)"
-    mods = any(isinstance(n, ast.If) and "Module" in ast.unparse(n.test) and ast.unparse(n.body[-1]) == "return module_qualname(obj)" for n in au.walk_no_nested(fe.node))
+    dflt = au.tail_default(fe.node.body)
+    ok = bool(dflt) and isinstance(dflt[-1], ast.Return) and ast.unparse(dflt[-1].value) == "pydantic_json_encoder(obj)"
+    mods = any(ast.unparse(r.value) == "module_qualname(obj)" and shared.cond_match(fe.node, r, "isinstance(obj, (Module, ExternalModule, Generator))", True, use_prov=False) for r in shared.returns_of(fe.node))
     R.check(ok and mods, rule, key_of(fe, "encoder"), fe.site, f"the encoder names Module/ExternalModule/Generator values by their qualified name ({mods}) and hands everything else to the (raising) default encoder ({ok})", why="module-valued parameters are named by their address-bearing repr")
 
 
